@@ -188,7 +188,7 @@ def malformed_concentrations(rng, n):
              'unknown_prefix': rng.choice([f'{v} Gmol/L', f'{v} mol/TL', f'{v} xM', f'{v} hg/L']),
              'wrong_case': rng.choice([f'{v} MOL/L', f'{v} mol/ML', f'{v} Mol/L', f'{v} %W/W', f'{v} G/L']),
              'missing_number': rng.choice(['M', ' M', 'mol/L', ' mol/L', '/L', 'g/', ' %w/v']),
-             'non_numeric': rng.choice(['1_0 mM', '1 mol/1_0 L', '5_0 %w/w', '\u0661 M', 'one M', 'abc mol/L', '1,5 M', '1e M', f'{v} mol/x L', f'{v} g/ten mL', 'nan M', 'inf M', '-inf g/L', 'NaN %w/w',
+             'non_numeric': rng.choice(['1_0 mM', '1 mol/1_0 L', '5_0 %w/w', '\u0661 M', f'\n{v} M', f' {v} M', f'{v}\tM', f'{v}  M', f'{v}\u00a0M', f'{v} mol/L ', f'{v} mol /L', f'{v} mol/ L', f'{v}  %w/w', f'{v} mol/L\n', 'one M', 'abc mol/L', '1,5 M', '1e M', f'{v} mol/x L', f'{v} g/ten mL', 'nan M', 'inf M', '-inf g/L', 'NaN %w/w',
                                         f'{v} mol/0 L', f'{v} mol/nan L', f'{v} g/inf mL', 'inf mol/inf L', 'nan U/mL', '1e999 M']),
              'extra_tokens': rng.choice([f'{v} mol/L/s', f'{v} mol/L extra', f'{v} M M', f'{v} g/10 mL mL', f'{v} mol per L']),
              'empty': rng.choice(['', ' ', '/'])}[fam]
